@@ -218,7 +218,8 @@ type World struct {
 	nextItem   int
 	submitted  []int
 	prefillN   int
-	muOwner    map[*sync.Mutex][2]int // poolMu address -> (instance, incarnation)
+	muOwner    map[sync.Locker][2]int // poolMu / rootsMu address -> (instance, incarnation)
+	rootsTasks int                    // setroots tasks in flight
 	bulkDone   bool
 	noYield    bool
 	admChecked int
@@ -394,7 +395,7 @@ func (w *World) apply(inst *Instance, inc int, kind, key string, p *pendingOp, e
 
 // yield is ctlog.VerifYield for the current run: the calling goroutine is about
 // to take poolMu; park it and let the scheduler decide when it goes on.
-func (w *World) yield(mu *sync.Mutex) {
+func (w *World) yield(mu sync.Locker) {
 	if !w.prof.Yield || w.auto || w.noYield {
 		return // noYield: the scheduler goroutine itself is calling into the log
 	}
@@ -408,8 +409,12 @@ func (w *World) yield(mu *sync.Mutex) {
 	if in.inc != o[1] || in.dead {
 		select {}
 	}
-	op := &core.Op{ID: w.sim.NewOpID(in.idx, o[1], "yield", "poolMu"), Inst: in.idx, Inc: o[1], Kind: "yield", Key: "poolMu", Payload: &pendingOp{}}
-	w.sim.Probe("yield.poolMu")
+	key := "poolMu"
+	if in.log != nil && mu == in.log.VerifRootsMuAddr() {
+		key = "rootsMu"
+	}
+	op := &core.Op{ID: w.sim.NewOpID(in.idx, o[1], "yield", key), Inst: in.idx, Inc: o[1], Kind: "yield", Key: key, Payload: &pendingOp{}}
+	w.sim.Probe("yield." + key)
 	w.sim.Park(op)
 }
 
